@@ -163,10 +163,17 @@ def check(run):
         replay_and_validate(run, [beh], rp.get("low", []), int(rp.get("consts", {}).get("MaxProps", 2)), known, stats, "rp")
         run.finish()
 
-    run.tlc_mc("GovToken.tla", "MC_GovToken.cfg" if quick else "MC_GovToken_thorough.cfg", timeout=1500)
+    # quick: <= 5 successful calls, one min_vote_percent / trigger target; thorough adds <= 6 successful calls
+    # (reduced parameters) and <= 5 successful calls with all proposal parameters (the full-parameter
+    # depth-6 space is ~10^8 transitions)
+    run.tlc_mc("GovToken.tla", "MC_GovToken.cfg", timeout=900)
+    if not quick:
+        run.tlc_mc("GovToken.tla", "MC_GovToken_thorough.cfg", timeout=1500)
+        run.tlc_mc("GovToken.tla", "MC_GovToken_full5.cfg", timeout=1500)
 
     # (number of behaviours, calls per behaviour, MaxProps)
-    plans = [(140, 14, 3), (100, 22, 3)] if quick else [(400, 14, 3), (400, 22, 3), (200, 30, 4), (120, 40, 4)]
+    plans = [(160, 14, 3), (120, 22, 3)] if quick else [(500, 14, 3), (500, 22, 3), (300, 30, 4), (200, 40, 4)]
+    batch = 150 if quick else 250
     n = 0
     good = True
     for k, (num, ops, mp) in enumerate(plans):
@@ -174,10 +181,10 @@ def check(run):
                            consts={"MaxOps": ops, "MaxProps": mp})
         if not run.samples:
             run.samples = behs[:2]
-        for start in range(0, len(behs), 150):
+        for start in range(0, len(behs), batch):
             low = LOWS[(run.seed + n) % len(LOWS)]
             n += 1
-            good = replay_and_validate(run, behs[start:start + 150], low, mp, known, stats, "t%d_%d" % (k, start))
+            good = replay_and_validate(run, behs[start:start + batch], low, mp, known, stats, "t%d_%d" % (k, start))
             if not good:
                 break
         if not good:
